@@ -393,3 +393,111 @@ def check_metabolite_adoption(ctx, rule: str) -> None:
         ctx.bad(rule, fn, "metabolite adoption", "; ".join(list(dict.fromkeys(problems))[:2]))
     else:
         ctx.ok(rule, fn, "metabolite adoption", f"{n} cases (reaction with / without a model x metabolite of the same model, of another model with a known / unknown identifier, of no model; combine on/off): a metabolite of another model is never taken over, the object held lists the reaction and belongs to the reaction's model (if any)")
+
+
+# ------------------------------------------------------------------------------------------ rule copies
+class NodeS(_S):
+    """A node of a stand-in rule tree (Name / BoolOp with And / Or)."""
+
+    def __init__(self, kind, **kw):
+        self.kind = kind
+        self.__dict__.update(kw)
+
+
+def _tree_nodes(t):
+    if t is None:
+        return
+    yield t
+    for v in getattr(t, "values", []) or []:
+        yield from _tree_nodes(v)
+    if getattr(t, "op", None) is not None:
+        yield t.op
+
+
+def _tree_text(t):
+    if t is None:
+        return "<empty>"
+    if t.kind == "Name":
+        return t.id
+    return "(" + (" and " if t.op.kind == "And" else " or ").join(_tree_text(v) for v in t.values) + ")"
+
+
+def check_rule_copies(ctx, rule: str) -> None:
+    """GPR.copy / GPR.__copy__ (what copy.copy(rule) and Model.copy use) evaluated on stand-in rule trees: the copy says
+    the same, and shares no tree node and no gene set with the original - for an empty rule, a rule of one gene and
+    nested rules alike (rename_genes and remove_genes rewrite the nodes of a rule in place)."""
+    import copy as _copy
+
+    prog = ctx.prog
+    cls = prog.units["cobra.core.gene"].classes.get("GPR")
+    if cls is None:
+        raise AnalysisError("C12.gpr: class GPR not found")
+    problems: List[str] = []
+    n = 0
+    N = lambda i: NodeS("Name", id=i)  # noqa: E731
+    B = lambda k, *v: NodeS("BoolOp", op=NodeS(k), values=list(v))  # noqa: E731
+    trees = [None, N("a"), B("Or", N("a"), N("b")), B("And", N("a"), B("Or", N("b"), N("c")))]
+    for entry in ("copy", "__copy__", "__deepcopy__"):
+        fns = cls.methods.get(entry)
+        if not fns:
+            continue
+        for t in trees:
+            n += 1
+
+            def _isinstance(it_, ev, c, a, k):
+                names = [norm(y).split(".")[-1] for y in (c.args[1].elts if isinstance(c.args[1], ast.Tuple) else [c.args[1]])]
+                v = a[0]
+                if isinstance(v, NodeS):
+                    return v.kind in names or (v.kind in ("And", "Or") and "boolop" in names) or "AST" in names
+                if isinstance(v, RealMethods):
+                    return any(x in names for x in ("GPR", "Module", "AST"))
+                return False
+
+            stubs = {"copy.deepcopy": lambda it_, ev, c, a, k: _copy.deepcopy(a[0]) if len(a) == 1 else _copy.deepcopy(a[0], a[1]), "copy.copy": lambda it_, ev, c, a, k: _copy.copy(a[0]), "isinstance": _isinstance}
+            it = Interp(prog, (_S, RealMethods, _BoundReal), [f.qualname for f in prog.all_funcs() if f.qualname.startswith("cobra.core.gene.GPR.")], stubs, globals_={"set": set, "frozenset": frozenset, "list": list})
+            Base = real_methods_class("RuleStandIn", prog, cls, it, bases=(_S,), skip=("__init__", "genes", "update_genes", "__repr__", "__str__", "_repr_html_", "__eq__"))
+
+            class G(Base):  # noqa: N801
+                def __init__(self, gpr_from=None, **kw):
+                    object.__setattr__(self, "body", getattr(gpr_from, "body", None))
+                    object.__setattr__(self, "_genes", set())
+
+                def update_genes(self):
+                    object.__setattr__(self, "_genes", {x.id for x in _tree_nodes(self.body) if x.kind == "Name"})
+
+                @property
+                def genes(self):
+                    self.update_genes()
+                    return frozenset(object.__getattribute__(self, "_genes"))
+
+            for mod in ("cobra.core.gene", "cobra.core", "cobra"):
+                stubs[f"{mod}.GPR"] = lambda it_, ev, c, a, k, _G=G: _G(*a, **k)
+            g = G()
+            object.__setattr__(g, "body", t)
+            g.update_genes()
+            what = f"GPR.{entry} of the rule `{_tree_text(t)}`"
+            try:
+                new = it.call(fns[-1], [{}] if entry == "__deepcopy__" else [], {}, selfobj=g)
+            except EvalRaise as exc:
+                problems.append(f"{what} raises {exc.exc_type}")
+                continue
+            except Unknown as exc:
+                raise AnalysisError(f"C12.gpr: {what} cannot be evaluated: {exc}")
+            if not isinstance(new, RealMethods) or new is g:
+                problems.append(f"{what} returns {'the rule itself' if new is g else type(new).__name__}")
+                continue
+            nb = object.__getattribute__(new, "__dict__").get("body")
+            if _tree_text(nb) != _tree_text(t):
+                problems.append(f"{what} says `{_tree_text(nb)}`")
+                continue
+            mine = {id(x) for x in _tree_nodes(t)}
+            shared = [x for x in _tree_nodes(nb) if id(x) in mine]
+            if shared:
+                problems.append(f"{what} shares the node `{getattr(shared[0], 'id', shared[0].kind)}` with the original: renaming or removing a gene in one model rewrites that node in place and changes the rule of the other model's reaction as well")
+                continue
+            if object.__getattribute__(new, "__dict__").get("_genes") is object.__getattribute__(g, "__dict__").get("_genes"):
+                problems.append(f"{what} shares the gene set object with the original")
+    if problems:
+        ctx.bad(rule, cls.methods["copy"][-1] if "copy" in cls.methods else None, "rule copies", "; ".join(list(dict.fromkeys(problems))[:2]))
+    else:
+        ctx.ok(rule, cls.methods["copy"][-1] if "copy" in cls.methods else None, "rule copies", f"{n} cases (copy / __copy__ x empty, one gene, flat and nested rules): the copy says the same and shares no tree node and no gene set with the original")
